@@ -62,7 +62,7 @@ def gen_case(run_seed, tier):
     if g[0] > 6 and rep == "dm":
         rep = "s"
     det = sz.choice([0, 1, 2])
-    return {"n": g[0], "edges": [list(e) for e in g[1]], "family": fam, "rep": rep, "backend": backend, "det": det, "oseed": sz.randrange(10**9)}
+    return {"n": g[0], "edges": [list(e) for e in g[1]], "family": fam, "rep": rep, "backend": backend, "det": det, "oseed": sz.randrange(10**9), "shuffle_edges": sz.random() < 0.3}
 
 
 def simplify(case):
@@ -93,7 +93,7 @@ def simplify(case):
 
 def make_target(case):
     n, edges = case["n"], [tuple(e) for e in case["edges"]]
-    g = graphs.to_nx((n, edges))
+    g = graphs.to_nx((n, edges), edge_order_seed=(case["oseed"] + 17) if case.get("shuffle_edges") else None)
     if case["rep"] == "dm":
         psi = sv.graph_state(n, edges).psi
         return QuantumState(np.outer(psi, psi.conj()), rep_type="dm")
